@@ -276,6 +276,10 @@ def main():
                              "see evidence.functions_under_contract): %s%s. Bounded part: %s" % (
                                  ", ".join(sorted(DED[pid])),
                                  ("; lemmas " + ", ".join(sorted(LEM[pid]))) if LEM.get(pid) else "", c["text"]))
+                c["technique"] = ("contract-based deductive verification of the functions listed in the claim (verification conditions generated "
+                                  "from the real AST on every run against sidecar contracts, discharged by z3 / cvc5, policed by must-fail canaries) "
+                                  "-- a failed or undecided obligation is the violation; for the clauses outside them: " +
+                                  c["technique"].replace("contract-based: ", ""))
                 c["note"] = c["note"] + ("; the property is claimed at level 'other' because clauses outside the listed "
                                          "functions rest on run-time contracts; assumed callee contracts used by the "
                                          "deductive part are listed in the evidence (trusted)")
